@@ -57,6 +57,9 @@ def obligations(tier, ctx):
     for kt in [("notif", "resp"), ("notif", "notif", "req")]:
         obs.append(Ob(name="notify_refused_" + "_".join(kt), params=[("mode", "int")], pre=["0 <= mode <= 2"], call=f"H.routing_notify_refused({kt!r}, mode)",
                       backend="P", timeout=120, family="(c) notification stream full / closed: the read stream still gets every message"))
+    for kt in [("resp", "req"), ("notif", "resp", "resp")]:
+        obs.append(Ob(name="legacy_pending_" + "_".join(kt), params=[("mode", "int")], pre=["0 <= mode <= 1"], call=f"H.routing_legacy_pending({kt!r}, mode, False)",
+                      backend="P", timeout=120, family="(c) a legacy per-request stream is pending for the id: the read stream still gets every message"))
     return obs
 
 
